@@ -770,7 +770,12 @@ func (w *_assemblerRepr) AssignBool(b bool) error {
 func (w *_assemblerRepr) assignUInt(uin datamodel.UintNode) error {
 	switch stg := reprStrategy(w.schemaType).(type) {
 	case schema.UnionRepresentation_Kinded:
-		return w.asKinded(stg, datamodel.Kind_Int).(*_assemblerRepr).assignUInt(uin)
+		asm := w.asKinded(stg, datamodel.Kind_Int)
+		if asmRepr, ok := asm.(*_assemblerRepr); ok {
+			return asmRepr.assignUInt(uin)
+		}
+		// No member of this union is an integer: asKinded has handed back the assembler that carries the error.
+		return asm.AssignNode(uin)
 	case schema.EnumRepresentation_Int:
 		uin, err := uin.AsUint()
 		if err != nil {
